@@ -11,13 +11,22 @@ for f in sorted(glob.glob(os.path.join(ROOT, 'seeded', '*', 'meta.json'))):
       det.append('%s (%s)' % (k.replace(':', ' '), ', '.join(v['mechanisms'][:2])))
   first = m.get('first_evaluation', {})
   missed_first = any(v == 0 for v in first.values())
-  rows.append('| %s | %s | %s | %s | %s |' % (m['id'], m['property'], m.get('needs', '').replace('|', '/'), '; '.join(det) or '**not caught**',
-                                           'missed at first; check strengthened' if m.get('strengthened_after_miss') or (missed_first and det) else 'caught as built'))
+  if m.get('outside_property'):
+    caught, hist = 'n/a (does not break the property as stated)', 'kept for reference'
+  else:
+    caught = '; '.join(det) or '**not caught**'
+    hist = 'missed at first; check strengthened' if m.get('strengthened_after_miss') or (missed_first and det) else 'caught as built'
+  rows.append('| %s | %s | %s | %s | %s |' % (m['id'], m['property'], m.get('needs', '').replace('|', '/'), caught, hist))
+n_missed = sum(1 for r in rows if 'missed at first' in r)
+n_na = sum(1 for r in rows if 'kept for reference' in r)
 table = ('## 11. Seeded changes (independent sub-agents) and which checks catch them\n\n'
          'Each change was written by a fresh sub-agent that saw only the property text and its own scratch worktree (nothing from /verif). '
          'Every row was confirmed by `tools/seedeval.py`: the patch applies to /repo HEAD, the 427 baseline tests still pass, the '
          'demonstration exits 1 with the change and 0 without, and the listed check exits 1 on the patched worktree (quick tier unless '
-         'stated). `seeded/<id>/` holds patch.diff, demo.py, notes.txt and meta.json (what was run).\n\n'
+         'stated). `seeded/<id>/` holds patch.diff, demo.py, notes.txt and meta.json (what was run). '
+         'Of %d changes, %d were missed by the check as it stood and led to a generator / oracle extension, %d broke something the property '
+         'does not state; all others were caught as built. Side notes of the seed authors about the UNMODIFIED tree were triaged one '
+         'by one (sections 8 and 9).\n\n' % (len(rows), n_missed, n_na) +
          '| id | property | what the change needs in order to manifest | caught by (mechanisms) | history |\n|---|---|---|---|---|\n' + '\n'.join(rows) + '\n')
 p = os.path.join(ROOT, 'DESIGN.md')
 s = open(p).read()
